@@ -182,6 +182,36 @@ def kwargs_roundtrip(run, hvsrpy, wd):
             out.append(a)
         return np.array(out)
     fn = os.path.join(wd, "kwargs.csv")
+    # "same frequencies, curves ..." - bit for bit, whatever the size of the numbers: curves of the order 1e-3 (a floor of 0.003, values
+    # that have no short decimal form), 1e-12 and 1e9, a frequency axis that starts at 0.003 Hz
+    for kind in ("traditional", "azimuthal", "diffuse_field"):
+        for scale, f_ in ((0.003, f), (1e-12 / 3.0, f), (1e9 / 7.0, f), (1.0, np.geomspace(0.003, 9.0, 14))):
+            if kind == "traditional":
+                obj = hvsrpy.HvsrTraditional(f_, rows(0) * scale, meta={"processing_method": "traditional"})
+            elif kind == "azimuthal":
+                mt = {"processing_method": "traditional"}
+                obj = hvsrpy.HvsrAzimuthal([hvsrpy.HvsrTraditional(f_, rows(0) * scale, meta=dict(mt)), hvsrpy.HvsrTraditional(f_, rows(1) * scale, meta=dict(mt))],
+                                           [0.0, 90.0], meta={"processing_method": "azimuthal"})
+            else:
+                obj = hvsrpy.HvsrDiffuseField(f_, rows(0)[0] * scale, meta={"processing_method": "diffuse_field"})
+            rep = dict(kind="roundtrip-scale", obj=kind, scale=scale)
+            try:
+                with warnings.catch_warnings():
+                    warnings.simplefilter("ignore")
+                    if kind == "diffuse_field":
+                        hvsrpy.write_hvsr_object_to_file(obj, fn)
+                    else:
+                        hvsrpy.write_hvsr_object_to_file(obj, fn, distribution_mc="lognormal", distribution_fn="lognormal")
+                    back = hvsrpy.read_hvsr_object_from_file(fn)
+            except Exception as e:
+                run.violation(f"roundtrip:scale:exception:{kind}", f"{kind} with curves x {scale}: write/read raised {type(e).__name__}: {e}", rep)
+                continue
+            a_, b_ = ([obj], [back]) if kind != "azimuthal" else (obj.hvsrs, back.hvsrs)
+            same = np.array_equal(np.asarray(obj.frequency), np.asarray(back.frequency)) and all(np.array_equal(x.amplitude, y.amplitude) for x, y in zip(a_, b_))
+            if not same:
+                nbad = sum(int(np.sum(np.asarray(x.amplitude) != np.asarray(y.amplitude))) for x, y in zip(a_, b_)) + int(np.sum(np.asarray(obj.frequency) != np.asarray(back.frequency)))
+                run.violation(f"roundtrip:scale:{kind}", f"{kind} with curves x {scale:g}, frequencies from {f_[0]:g} Hz: {nbad} samples are not restored bit for bit", rep)
+            run.case(("scale", kind, scale, float(f_[0])))
     n = 0
     for kind in ("traditional", "azimuthal"):
         for kwargs in (dict(width=2), dict(prominence=1.2), None):
